@@ -17,6 +17,7 @@ that the side condition refutes exactly those defects, with concrete runs of the
 stale result (non-vacuity).
 -/
 import Nitime.Lemmas.OneTime
+import Nitime.Lemmas.Sessions
 import Nitime.Generated.Analyzers
 
 namespace Nitime.C14.Props
@@ -392,5 +393,104 @@ example : (read (spec_CorrelationAnalyzer.resolve []) numSem g_CorrelationAnalyz
     (construct numSem [] (fun p => some p) 500)).2
   ≠ (read (spec_CorrelationAnalyzer.resolve []) numSem g_CorrelationAnalyzer_xcorr_norm
     (construct numSem [] (fun p => some p) 3)).2 := by decide
+
+
+/-! ### PROCESS-level sessions (Model/Sessions.lean, Lemmas/Sessions.lean): the object that is
+re-targeted lives in a process with other objects of base / derived / sibling / user classes that are
+constructed, read, reset and re-targeted before, in between and afterwards. -/
+
+open Nitime.OneTime.Sessions
+
+/-- GENERATED: how `ResetMixin.reset` obtains the names it deletes is a safe source (walks the MRO per
+    call, or a table in the class's OWN dictionary); a table found through `getattr(cls, …)` — seeds
+    C13-9, C14-8 — makes this fail at translation time -/
+theorem reset_name_source_safe : resetNameSource.safe = true := by decide
+
+/-- GENERATED: no constructor binds a written-into slot to a module-level or class-level object -/
+theorem ctor_state_is_per_object : ∀ sp ∈ allSpecs, sp.processBound = [] := by decide
+
+theorem RetargetOK.of_mem_iff {spec : Spec} {present w w' d r : List Nat}
+    (h : RetargetOK spec present w d r) (hw : ∀ k, k ∈ w ↔ k ∈ w') : RetargetOK spec present w' d r :=
+  ⟨h.sorted, h.noClobber, h.writes, h.dwrites, fun g hg => h.walk g (fun hg' => hg ((hw g).1 hg')),
+   h.derivedRead, h.refreshedSub⟩
+
+/-- MAIN THEOREM, process version.  Object `o` of class `c` is constructed somewhere in a session, read
+    (`l`), re-targeted (reset + assignments + `set_input`), read again (`l'`); ANY operations on ANY other
+    objects of any classes are interleaved.  With today's `reset` (`reset_name_source_safe`) a further read
+    of `g` returns what a newly constructed object with the new parameters and the new input returns
+    after the reads `l'`.  `hR` is the generated side condition for the names of class `c` and its
+    ancestors. -/
+theorem session_retarget_eq_fresh (h : Hier) (sem : Sem V I) (spec : Spec)
+    (present derived refreshed changed : List Nat) (cp new : Nat → Option V) (x x' : I) (c : Nat)
+    (hR : RetargetOK spec present (h.allNames c) derived refreshed)
+    (hp : ∀ p ∈ present, ((construct sem derived cp x).params p).isSome = true)
+    (hp' : ∀ p ∈ present,
+      ((construct sem derived (newParams changed new cp) x').params p).isSome = true)
+    (hnew : ∀ p ∈ present, p ∈ changed → (new p).isSome = true)
+    (ops : List (SOp V I)) (hn : NewUnbound ops) (o : Nat) (l l' : List Nat) (g : Nat)
+    (hproj : ops.filter (touches o) =
+      SOp.new o { cls := c, spec := spec, st := construct sem derived cp x } ::
+        (l.map (fun g => SOp.on o (Op.read g)) ++
+          SOp.on o (Op.retarget refreshed changed new x') :: l'.map (fun g => SOp.on o (Op.read g)))) :
+    ∃ ob, (srun resetNameSource h sem ops Proc.empty).obj o = some ob ∧
+      (read ob.spec sem g ob.st).2
+        = (read spec sem g (run spec sem l' (construct sem derived (newParams changed new cp) x'))).2 := by
+  refine ⟨_, session_retarget_state reset_name_source_safe h sem ops hn o _ l l' refreshed changed new x'
+    hproj, ?_⟩
+  exact retarget_eq_fresh spec present (h.allNames c) derived refreshed changed sem cp new x x' hR hp hp'
+    hnew l l' g
+
+/-- the class hierarchy of a family session (`ResetMixin` ← `BaseAnalyzer` ← analyzer ← user subclass)
+    names, for the analyzer class, exactly the getters the generated table says `reset` walks -/
+theorem family_names_are_walked :
+    ∀ sp ∈ allSpecs, ∀ k ∈ List.range (sp.getters.length + 1),
+      ((familyHier sp).allNames 2).contains k = (sp.walked true).contains k := by decide
+
+/-- class 0 = base class owning the one-time name 0; class 1 derives from it and owns name 1 -/
+def cexHier : Hier := { mro := fun c => if c = 1 then [1, 0] else [c], own := fun c => [c] }
+def cexSpec : Spec := [{ usesInput := true }, { usesInput := true }]
+def cexObj (c x : Nat) : Obj Nat Nat :=
+  { cls := c, spec := cexSpec, st := construct numSem [] (fun p => some p) x }
+
+def readAfter (src : NameSource) (ops : List (SOp Nat Nat)) : Option (Option Nat) :=
+  ((srun src cexHier numSem ops Proc.empty).obj 1).map fun ob => (read ob.spec numSem 1 ob.st).2
+
+/-- COUNTEREXAMPLE (seeds C14-8, C13-9).  With a per-class table found through the parent lookup, in
+    the session "re-target a base-class instance, then build a derived instance, read, re-target" the
+    derived instance answers with the result computed for its OLD input; in the session where the derived
+    class is re-targeted first it does not, nor with an own-dictionary table. -/
+theorem inherited_table_retarget_stale :
+    readAfter .inheritedTable
+        [.new 0 (cexObj 0 3), .on 0 (.retarget [] [] (fun _ => none) 9), .new 1 (cexObj 1 3), .on 1 (.read 1),
+         .on 1 (.retarget [] [] (fun _ => none) 500)]
+      ≠ some (read cexSpec numSem 1 (construct numSem [] (fun p => some p) 500)).2 ∧
+    readAfter .inheritedTable
+        [.new 1 (cexObj 1 3), .on 1 (.retarget [] [] (fun _ => none) 7), .new 0 (cexObj 0 3),
+         .on 0 (.retarget [] [] (fun _ => none) 9), .on 1 (.read 1), .on 1 (.retarget [] [] (fun _ => none) 500)]
+      = some (read cexSpec numSem 1 (construct numSem [] (fun p => some p) 500)).2 ∧
+    readAfter .ownTable
+        [.new 0 (cexObj 0 3), .on 0 (.retarget [] [] (fun _ => none) 9), .new 1 (cexObj 1 3), .on 1 (.read 1),
+         .on 1 (.retarget [] [] (fun _ => none) 500)]
+      = some (read cexSpec numSem 1 (construct numSem [] (fun p => some p) 500)).2 := by
+  decide
+
+def corrObj (c x : Nat) : Obj Nat Nat :=
+  { cls := c, spec := spec_CorrelationAnalyzer.resolve [], st := construct numSem [] (fun p => some p) x }
+
+/-- non-vacuity of `session_retarget_eq_fresh`: CorrelationAnalyzer re-targeted among other objects -/
+example :
+    ∃ ob, (srun resetNameSource (familyHier spec_CorrelationAnalyzer) numSem
+        [.new 3 (corrObj 1 1), .on 3 .reset, .new 0 (corrObj 2 3),
+         .on 0 (.read g_CorrelationAnalyzer_xcorr_norm), .on 3 (.read g_CorrelationAnalyzer_parameterlist),
+         .on 0 (.retarget [] [] (fun _ => none) 500), .on 3 .reset] Proc.empty).obj 0 = some ob ∧
+      (read ob.spec numSem g_CorrelationAnalyzer_xcorr_norm ob.st).2
+        = (read (spec_CorrelationAnalyzer.resolve []) numSem g_CorrelationAnalyzer_xcorr_norm
+            (run (spec_CorrelationAnalyzer.resolve []) numSem []
+              (construct numSem [] (newParams [] (fun _ => none) (fun p => some p)) 500))).2 :=
+  session_retarget_eq_fresh (familyHier spec_CorrelationAnalyzer) numSem _
+    (spec_CorrelationAnalyzer.present []) [] [] [] _ _ 3 500 2
+    (retargetOK_of_B (by decide)) (by decide) (by decide) (by decide) _
+    (by intro o ob hm; simp at hm; rcases hm with ⟨_, rfl⟩ | ⟨_, rfl⟩ <;> rfl) 0
+    [g_CorrelationAnalyzer_xcorr_norm] [] _ (by rfl)
 
 end Nitime.C14.Props
